@@ -84,6 +84,20 @@ pub struct Case {
     pub cfg: Cfg,
     pub script: Script,
     pub steps: Vec<Step>,
+    /// C03 part A: enumerate every crash point of the next get() for this prefix
+    #[serde(default, skip_serializing_if = "Option::is_none")]
+    pub matrix: Option<MatrixSpec>,
+}
+
+/// Quiescent prefix state for the crash-point matrix.
+#[derive(Clone, Copy, Debug, Serialize, Deserialize, PartialEq, Eq, Hash)]
+pub struct MatrixSpec {
+    /// idle objects before the call
+    pub idle: u8,
+    /// objects in caller hands before the call
+    pub held: u8,
+    /// how the earlier idle objects of the same call are rejected (false: Message, true: Backend)
+    pub reject_backend: bool,
 }
 
 impl Step {
